@@ -321,7 +321,7 @@ def runOp : P String := do
   | "HPHI" =>
     let x ← pFloat
     pure ("OK " ++ toHex (HP.toFloat (HP.Phi 128 (HP.ofFloat x))))
-  | "LEAGUE" =>
+  | "LEAGUE" | "LEAGUEX" =>
     -- a whole league history on the model's league machine (ratings fed back by player number)
     let beta ← pFloat
     let kappa ← pFloat
@@ -348,6 +348,16 @@ def runOp : P String := do
         | "S" => Outcome.scores <$> pMany nt pNum
         | t => throw s!"bad-outcome {t}"
       games := games.push { kind := k, teams := teams.toList, outcome := outcome, opts := { tau := tauO, limitSigma := lsO } }
+    if op == "LEAGUEX" then
+      -- the same league machine on big floats, exact outputs
+      let c := HP.ofFloat
+      let gamesX : List (LeagueGame HP.BF PyNum) := games.toList.map (fun gm =>
+        { kind := gm.kind, teams := gm.teams, outcome := gm.outcome, opts := { tau := gm.opts.tau.map c, limitSigma := gm.opts.limitSigma } })
+      let PX : Params HP.BF := { beta := c beta, kappa := c kappa, tau := c tau, limitSigma := ls, gamma := convGamma c g }
+      let s0X : Store HP.BF := { mu := fun p => c (init.getD p (0.0, 0.0)).1, sigma := fun p => c (init.getD p (0.0, 0.0)).2 }
+      let sNX := playLeague codeLeaves PX PyNum.le PyNum.neg s0X gamesX
+      pure ("OK " ++ " ".intercalate ((List.range np).map (fun p => s!"{showBF (sNX.mu p)}:{showBF (sNX.sigma p)}")))
+    else
     let P : Params Float := { beta := beta, kappa := kappa, tau := tau, limitSigma := ls, gamma := g }
     let s0 : Store Float := { mu := fun p => (init.getD p (0.0, 0.0)).1, sigma := fun p => (init.getD p (0.0, 0.0)).2 }
     let sN := playLeague codeLeaves P PyNum.le PyNum.neg s0 games.toList
